@@ -95,6 +95,8 @@ type Path struct {
 	strConsts  map[string]*Object
 	typeIDs    map[string]int
 	lockEvents bool
+	x25519Shared [][3]*Term // (lo, hi, shared secret) of every X25519 exchange so far: collision-free
+	x25519IDs  []*Term // identifiers (first 64 bits) of the X25519 keys generated so far: pairwise distinct
 	interleave   *FuncV            // vf.Interleave: pending operation of another thread
 	inInterleave bool
 	interleaveSites map[string]bool // static lock sites at which the preemption was already offered
